@@ -113,6 +113,22 @@ func instancesOf(a *Term, cands []*Term, limit *int) []*Term {
 
 // prepareGoal: (negated-goal body, extra ground assumptions)
 func prepareGoal(assumes []*Term, goal *Term) (*Term, []*Term) {
+	// a goal that is a boolean name defined by an assumption (result of a contract call:
+	// r <==> body) is replaced by its definition, so that quantifiers in it can be skolemised
+	if goal.Op == "var" && goal.Sort == SBool {
+		for _, a := range assumes {
+			if a.Op == "=" && len(a.Args) == 2 {
+				if a.Args[0] == goal && a.Args[1].Sort == SBool {
+					goal = a.Args[1]
+					break
+				}
+				if a.Args[1] == goal && a.Args[0].Sort == SBool {
+					goal = a.Args[0]
+					break
+				}
+			}
+		}
+	}
 	g, sks := skolemiseGoal(goal)
 	if len(sks) == 0 {
 		return goal, nil
